@@ -9,7 +9,7 @@
 
   The predicates are written against the PROPERTY's vocabulary (`specCandidates`, `renderVerbatim`, `print q = trim s`),
   not against the step-by-step model of the code (`resolve`, `render`, `matchFull`); Props/C20 proves that the model
-  satisfies them (or, for the substitution clause, on which inputs it does).
+  of the code as it is satisfies them (for histories: on which histories it does).
 -/
 import ControlModel.Model.Query
 import ControlModel.Model.QueryConc
@@ -68,7 +68,8 @@ def payloadOk (t : List Leaf) (q : Query) (p : Payload) : Bool :=
   | .err _, none => true
   | _, _ => false
 
-/-- the five characters pongo2's autoescape rewrites -/
+/-- the five characters pongo2's autoescaping rewrites (only the hypothesis of the theorems that speak about ANY
+    configuration, the legacy one included; the code as it is substitutes every value as supplied) -/
 def escapeFree (s : Str) : Bool := s.all fun c => !(c == '&' || c == '<' || c == '>' || c == '"' || c == '\'')
 
 /-- names occurring in a template of the fragment -/
@@ -91,8 +92,8 @@ def processedOk (t : List Leaf) (q : Query) (vars : List (Str × Str)) (p : Payl
         match p with | .ok s => s == want | _ => false
       else match p with | .err _ => true | _ => false
 
-/-- hypothesis of the partial substitution theorem: every supplied value a template of the entry mentions is free of
-    the characters autoescape rewrites -/
+/-- hypothesis of the configuration-independent substitution theorem (`C20_model_meets_spec_partial`): every supplied
+    value a template of the entry mentions is free of the characters autoescaping rewrites -/
 def valuesEscapeFree (t : List Leaf) (q : Query) (vars : List (Str × Str)) : Bool :=
   match yamlGet t (absRaw q) with
   | none => true
@@ -108,7 +109,7 @@ def lookupOk (t : List Leaf) (q : Query) (vars : List (Str × Str)) (o : LookupO
    | _ => o.get == .dash && o.proc == .dash) &&
   payloadOk t q o.getq
 
-/-- `lookupOk` without the substitution clause (used to attribute a failure to the known finding) -/
+/-- `lookupOk` without the substitution clause -/
 def lookupOkButSubstitution (t : List Leaf) (q : Query) (vars : List (Str × Str)) (o : LookupObs) : Bool :=
   resolutionOk (yamlExists t) q o.resolved &&
   (match o.resolved with
@@ -129,10 +130,14 @@ def parseOk (s : Str) (o : FullObs) : Bool :=
 
 /-! ## what the model does, as observations (this is what the driver prints as `modelObs`) -/
 
-def modelLookupObs (t : List Leaf) (q : Query) (vars : List (Str × Str)) : LookupObs :=
+def modelLookupObsWith (c : Cfg) (t : List Leaf) (q : Query) (vars : List (Str × Str)) : LookupObs :=
   match resolve (yamlExists t) q with
-  | some r => ⟨probes (yamlExists t) q, .ok r (print r), getComponent t r, getComponent t q, processComponent t r vars⟩
+  | some r => ⟨probes (yamlExists t) q, .ok r (print r), getComponent t r, getComponent t q, processComponentWith c t r vars⟩
   | none => ⟨probes (yamlExists t) q, .unresolved, .dash, getComponent t q, .dash⟩
+
+/-- the observation of the code as it is (what the driver prints) -/
+def modelLookupObs (t : List Leaf) (q : Query) (vars : List (Str × Str)) : LookupObs :=
+  modelLookupObsWith codeCfg t q vars
 
 def modelFullObs (s : Str) : FullObs :=
   match parse s with
@@ -194,24 +199,6 @@ def opsWf : List Op → Bool
   | .rproc q _ :: r => wf q && opsWf r
   | _ :: r => opsWf r
 
-/-- the values one request supplies for the names its (linked) entry mentions are free of the autoescaped characters -/
-def reqEscapeFree (t : List Leaf) (q : Query) (vars : List (Str × Str)) : Bool :=
-  match linkedEntry t q with
-  | .ok segs => (varNames segs).all fun n => escapeFree (lookup (bindings vars) n)
-  | _ => true
-
-/-- …for every request of a history -/
-def seqEscapeFree : List Leaf → List Op → Bool
-  | _, [] => true
-  | t, .proc q vars :: r => reqEscapeFree t q vars && seqEscapeFree t r
-  | t, .rproc q vars :: r =>
-    (match resolve (yamlExists t) q with
-     | some rq => reqEscapeFree t rq vars
-     | none => true) && seqEscapeFree t r
-  | t, .put key content :: r => seqEscapeFree (putLeaf t key content) r
-  | t, .del key :: r => seqEscapeFree (delLeaf t key) r
-  | t, _ :: r => seqEscapeFree t r
-
 def obsOfResp : Resp → ObsItem
   | .pay p => .pay p
   | .res (some r) p => .res (.ok r (print r)) p
@@ -264,15 +251,6 @@ def reqWf : Req → Bool
   | .rget q => wf q
   | .proc q _ => wf q
   | .rproc q _ => wf q
-
-/-- the values a request supplies for the names its (linked) entry mentions are free of the autoescaped characters -/
-def reqEscFree (t : List Leaf) : Req → Bool
-  | .proc q vars => reqEscapeFree t q vars
-  | .rproc q vars =>
-    (match resolve (yamlExists t) q with
-     | some rq => reqEscapeFree t rq vars
-     | none => true)
-  | _ => true
 
 /-- what the model answers (printed by the driver as `modelObs`): for every request its sequential answer, and that
     answer again as the only one it can receive under concurrency -/
